@@ -66,9 +66,10 @@ Proof. intros Has Hf Hm. unfold process_text. destruct (process s); [|apply eqf_
   eapply eqf_trans; [apply eqd_eqf; exact E3|]. eapply eqf_trans; [apply eqd_eqf; exact He|exact E1]. Qed.
 
 Lemma store_id_eqf id i s : store_id id i s ~= s.
-Proof. unfold store_id. set (s1 := if has_key id (ids s) then _ else s).
+Proof. unfold store_id. set (s1 := if has_key id (ids s) then _ else _).
+  assert (Herr : forall k, (err k (s <| quiet := false |>)) <| quiet := quiet s |> ~= s) by (intro k; unfold err; cbn; destruct s; reflexivity).
   assert (E : s1 ~= s).
-  { unfold s1. destruct (has_key id (ids s)); [|apply eqf_refl]. unfold err. cbn. destruct s; reflexivity. }
+  { unfold s1. destruct (has_key id (ids s)); [apply Herr|]. destruct (_ && _); [apply Herr|apply eqf_refl]. }
   eapply eqf_trans; [|exact E]. destruct s1; reflexivity. Qed.
 
 Lemma macro_bm_eqf s : fmt s = FL -> markup_okL (mtags s) -> has_cur s = true -> macro_bm s ~= s.
